@@ -6,6 +6,22 @@ import "github.com/crillab/gophersat/solver"
 
 const hooksOn = true
 
-func setNbMax(s *solver.Solver, n int)  { s.VerifSetNbMax(n) }
-func stateOK(s *solver.Solver) string   { return s.VerifStateOK() }
-func learned(s *solver.Solver) []string { return s.VerifLearned() }
+func setNbMax(s *solver.Solver, n int)   { s.VerifSetNbMax(n) }
+func setRestart(s *solver.Solver, k int) { s.VerifRestartEvery(k) }
+func stateOK(s *solver.Solver) string    { return s.VerifStateOK() }
+func learned(s *solver.Solver) []string  { return s.VerifLearned() }
+
+func traceOn(s *solver.Solver, max, every int, quiet, withConstrs bool) {
+	s.VerifTraceOn(max, every, quiet, withConstrs)
+}
+
+func traceSnaps(s *solver.Solver) []Snap {
+	vs := s.VerifSnaps()
+	res := make([]Snap, len(vs))
+	for i, v := range vs {
+		res[i] = Snap{Kind: v.Kind, Lvl: v.Lvl, Trail: v.Trail, Model: v.Model, Reasons: v.Reasons, Assumptions: v.Assumptions,
+			Conflict: v.Conflict, Constrs: v.Constrs, Done: v.Done, ResKind: v.ResKind, Learnt: v.Learnt, Unit: v.Unit,
+			Props: v.Props, NewLvl: v.NewLvl, NbOrig: v.NbOrig, CP: v.CP}
+	}
+	return res
+}
